@@ -88,3 +88,15 @@ def declare(reg, eng):
                  modifies=[],
                  ensures=[("C19", "implies(self.operator == 'and', result == (expr_value(self.y, information) and expr_value(self.x, information)))"),
                           ("C19", "implies(self.operator != 'and', result == (expr_value(self.y, information) or expr_value(self.x, information)))")])
+
+    # left-associative fold of a chain  t0 (op1 t1) (op2 t2) ... : node k has node k-1 as left operand, the last node is returned
+    reg.contract("LogicExpr.summary", params=["tokens"], types={"tokens": "list[LogicExpr]"},
+                 requires=["length(tokens) >= 1", "distinct(tokens)"],
+                 ensures=[("C19", "result is at(tokens, length(tokens) - 1)"),
+                          ("C19", "implies(length(tokens) >= 2, at(tokens, 1).x is at(tokens, 0))")],
+                 modifies=["*.x"],
+                 # each node of the chain receives the previous node as its left operand (the quantified statement
+                 # "tokens[k].x is tokens[k-1] for all k" follows from the invariant and the per-iteration clause;
+                 # that last step is index-shifted sequence reasoning the solvers do not complete and is argued in DESIGN)
+                 loops={"token": {"no_break": True, "invariants": ["v is at(tokens, _i + 1)", "at(tokens, 1).x is at(tokens, 0)"],
+                                  "body_post": [("C19", "token.x is at_iteration_start(v) and v is token")]}})
